@@ -2,8 +2,8 @@
 // leaves: Oset (public ordered set) - BOUNDED STAND-IN for changed code the verifier cannot ingest (the unchanged methods are verified)
 // props leaf_oset_model: C18   (every history against std BTreeSet: iteration strictly increasing and complete, contains, equality and ordering by element set)
 // covers leaf_oset_model: fn insert, fn contains, fn from_iter, fn extend, fn into_iter, fn deref
-// bound: every history `from_iter(l0); op1; ..; opk` with k <= 3 (k <= 4 in the thorough tier), l0 and the extend arguments from 6 lists over {0,1,2,3}
-//        (empty, singleton, sorted, reversed, with duplicates), ops = insert(0..3), extend(list), extend(list through a filter adapter, whose
+// bound: every history `from_iter(l0); op1; ..; opk` with k <= 3 (k <= 4 in the thorough tier), l0 and the extend arguments from 8 lists over {0,1,2,3}
+//        (empty, singleton, sorted, reversed, with duplicates, sorted with duplicates), ops = insert(0..3), extend(list), extend(list through a filter adapter, whose
 //        size_hint lower bound is 0); after every operation: iteration by reference, by value and through Deref, contains(0..4); at the end
 //        equality / cmp of every pair of final states against the element sets
 #[cfg(test)]
@@ -11,7 +11,7 @@ mod __vx_leafcheck {
     use super::*;
     use std::collections::BTreeSet;
 
-    const LISTS: [&[u8]; 6] = [&[], &[2], &[0, 1, 3], &[3, 2, 0], &[1, 1, 1, 0], &[2, 3, 2, 3, 0]];
+    const LISTS: [&[u8]; 8] = [&[], &[2], &[0, 1, 3], &[3, 2, 0], &[1, 1, 1, 0], &[2, 3, 2, 3, 0], &[1, 1, 2], &[0, 3, 3]];
     #[derive(Clone, Copy, Debug)]
     enum Op { Insert(u8), Extend(usize), ExtendFiltered(usize) }
 
